@@ -215,7 +215,7 @@ Proof.
 Qed.
 
 (* the guard of ring *)
-Lemma ring_rejects_spec N o k : ring_rejects N o k = true <-> N < 3.
+Lemma ring_rejects_spec N o k : ring_rejects N o k = true <-> N < 3 \/ k < 1.
 Proof. unfold ring_rejects. lia. Qed.
 
 (* ------------------------------------------------------------------ vertex umbrellas *)
